@@ -97,7 +97,7 @@ let run (toks : string list) : string =
         m := r.M.r_msg;
         if op.[0] <> 'K' then outs := !outs @ [hex_of_bytes r.M.r_out]) (split_on ',' ops);
       if !outs = [] then "-" else String.concat "," !outs
-  | ["wordenc"; e; s] -> hex_of_bytes (M.word_encode (n_of_int (if e = "b" then 98 else 113)) (bytes_of_hex s))
+  | ["wordenc"; _; s; e] -> hex_of_bytes (M.word_encode (n_of_int (if e = "b" then 98 else 113)) (bytes_of_hex s))
   | ["b64"; chunks] | ["b64f"; chunks] ->
       (match M.b64_body (List.concat (byteslist_of chunks)) with
        | Some o -> hex_of_bytes o | None -> "OUTOFFUEL")
